@@ -10,8 +10,18 @@ classified; the independent reference reader classifies the same image.
 
 allowed after a cut: tag/ndef not readable (None), empty message, the old
 message, the complete new message.  k = 0 must read old, k = n must read new.
+
+Leg `after-failed`: the same sweep for a write that FOLLOWS a failed write.
+First `ndef.octets = M1` meets a persistent communication fault from its k-th
+exchange on (command lost or response lost, until the assignment has raised),
+then - tag back in the field - `ndef.octets = M2` on the same NDEF object (or
+after a fresh activation) is cut after every state-changing command.  "The
+previous message" is what the tag really held before the second write (the
+fresh reader's view of the memory the failed write left behind).
 """
 from hypothesis import strategies as st
+
+import nfc.tag
 
 from vlib.engine import HarnessError, Leg, Violation, unexpected
 from props import tagcommon as tc
@@ -25,6 +35,13 @@ ASSUMPTIONS = [
     "Type 4 Tags with MLc smaller than the NLEN field are outside the domain "
     "(no writer can update NLEN atomically there)",
     "simulators and layout model as in C01",
+    "after-failed leg: the persistent fault of the first write never hits the "
+    "second packet of the Type 2 SECTOR SELECT (acknowledged by silence, same "
+    "exemption as C16); on Type 4 the second write follows a fresh activation "
+    "(the ISO-DEP session after a given-up APDU is the known finding "
+    "C12-no-resync-after-error); a second write that raises "
+    "TagCommandError although no fault is injected is accepted (its cut "
+    "points are still judged), other exception types are not",
 ]
 
 LENS = [0, 1, 2, 10, 100, 253, 254, 255, 256, 257, 300, 520, 871]
@@ -229,6 +246,198 @@ def run(case, ctx):
     ctx.note({"writes": n, "cuts": len(ks), "old": len(old), "new": L})
 
 
+# a write that follows a failed write ----------------------------------------
+def _length(spec, desc, cap):
+    if spec[0] == "mlc":
+        # relative to the effective command data limit of short APDUs
+        return max(0, min(min(desc.get("mlc", 255), 255) + spec[1], cap))
+    return min(tc.resolve_len(spec, cap), cap)
+
+
+def _lencls(b, L, inside):
+    return "%s/new-length-%s/cut-%s-length-update" % (
+        b.kind, "3-byte" if L >= 255 else "1-byte",
+        "inside" if inside else "before")
+
+
+def _only_length_bytes(b, image, final):
+    """the image differs from the final image of the write only in the (up
+    to three) length bytes of the NDEF TLV: the cut is inside the final
+    length update (known findings C02-ext-length-t1t/t2t)"""
+    off = b.info["tlv_off"]
+    lenbytes = set(range(off + 1, off + 4))
+    diff = [a for a in range(len(final)) if image[a] != final[a]]
+    return set(diff) <= lenbytes
+
+
+def run_after_failed(case, ctx):
+    desc = case["tag"]
+    b = tc.build(desc, case["old"], case["old_seed"])
+    if b is None:
+        ctx.label("layout-without-room")
+        return
+    kind = tc.classify(desc)
+    ctx.label(kind)
+    if desc["kind"] == "t4t" and desc["ver"] == 0x30 and \
+            desc["fsize"] > 0xFFFF:
+        ctx.label("skipped:file>64k")
+        return
+    old = b.old
+    # rehearsal: the first write without fault on a tag of its own -> number
+    # of exchanges, final image
+    b0 = tc.build(desc, case["old"], case["old_seed"])
+    try:
+        clf0, tag0 = tc.activate(b0)
+        nd0 = tag0.ndef
+        cap = nd0.capacity
+    except Exception as e:
+        raise unexpected(e, "setup-raises")
+    L1 = _length(case["m1"], desc, cap)
+    L2 = _length(case["m2"], desc, cap)
+    m1 = tc.message(L1, case["m1_seed"] ^ 0x40)
+    m2 = tc.message(L2, case["m2_seed"] ^ 0x80)
+    ctx.set_class("%s/new-length-%s" % (desc["kind"],
+                                        "3-byte" if L1 >= 255 else "1-byte"))
+    e0 = clf0.device.exchanges
+    try:
+        nd0.octets = m1
+    except Exception as e:
+        raise unexpected(e, "write-raises")
+    n1 = clf0.device.exchanges - e0
+    final1 = bytes(b0.tag.mem)
+    # the failed write
+    try:
+        clf, tag = tc.activate_hist(b)
+        ndef = tag.ndef
+        ndef.capacity
+    except Exception as e:
+        raise unexpected(e, "setup-raises")
+    dev = clf.device
+    where, i, fkind, phase = case["fault"]
+    i = i % max(n1, 1)
+    k = i if where == "abs" else max(n1, 1) - 1 - i
+    dev.arm([k, fkind, 0, phase])
+    st1 = "returned"
+    try:
+        ndef.octets = m1
+    except nfc.tag.TagCommandError:
+        st1 = "error"
+    except Exception as e:
+        raise unexpected(e, "faulted-write-raises",
+                         detail="persistent %s (%s lost) from exchange %d of "
+                                "%d" % (fkind, phase, k, n1))
+    finally:
+        plan = dev.disarm()
+    if getattr(b.tag, "exc", None) is not None:
+        raise unexpected(b.tag.exc, "emulation-raises")
+    ctx.label("first-write:%s:%s-lost" % (st1, phase))
+    image0 = bytes(b.tag.mem)
+    # what the tag really holds now (fresh reader / reference reader)
+    held = fresh_read(case, image0)
+    if held[2]:
+        ctx.label("reader-raised:" + held[2])
+    for who, x in (("library-reader", held[0]), ("reference-reader", held[1])):
+        c = classify(x, old, m1)
+        if c == "MIXTURE":
+            if b.kind in ("t1t", "t2t"):
+                ctx.set_class(_lencls(b, L1, _only_length_bytes(
+                    b, image0, final1)))
+            raise Violation(
+                "mixture", "%s after the failed first write (persistent %s, "
+                "%s lost, from exchange %d of %d) sees %d bytes (old %d, new "
+                "%d): %r" % (who, fkind, phase, k, n1, len(x), len(old),
+                             len(m1), desc))
+        ctx.label("held-" + c)
+    # the second write, tag back in the field
+    reuse = bool(case["reuse"]) and desc["kind"] != "t4t"
+    if not reuse:
+        try:
+            clf, tag = tc.activate(b)
+            ndef = tag.ndef if tag is not None else None
+            ok = ndef is not None and ndef.is_writeable and \
+                L2 <= ndef.capacity
+        except Exception as e:
+            # reading whatever a failed write left behind: C08's matter
+            unexpected(e)
+            ok = False
+        if not ok:
+            ctx.label("no-second-write:fresh-activation-finds-no-ndef")
+            return
+    ctx.label("second-write:" + ("same-object" if reuse else
+                                 "fresh-activation"))
+    ctx.set_class("%s/new-length-%s" % (desc["kind"],
+                                        "3-byte" if L2 >= 255 else "1-byte"))
+    b.tag.snaps = [image0]
+    w0 = b.tag.writes
+    st2 = "returned"
+    try:
+        ndef.octets = m2
+    except nfc.tag.TagCommandError:
+        st2 = "error"
+    except Exception as e:
+        raise unexpected(e, "second-write-raises",
+                         detail="after a first write that %s (persistent %s, "
+                                "%s lost, from exchange %d of %d)"
+                                % (st1, fkind, phase, k, n1))
+    if getattr(b.tag, "exc", None) is not None:
+        raise unexpected(b.tag.exc, "emulation-raises")
+    ctx.label("second-write:" + st2)
+    snaps = b.tag.snaps
+    b.tag.snaps = None
+    n = len(snaps) - 1
+    if n != b.tag.writes - w0:
+        raise HarnessError("snapshot count %d != writes %d"
+                           % (n, b.tag.writes - w0))
+    if case["cuts"] == "all" or n <= 40:
+        ks = list(range(0, n + 1))
+        ctx.label("cuts-exhaustive")
+    else:
+        ks = sorted(set(list(range(0, 14)) + list(range(n - 13, n + 1)) +
+                        list(range(14, n - 13, max(1, (n - 27) // 12)))))
+        ctx.label("cuts-edges+sampled")
+    seen = {image0: held}
+    for kk in ks:
+        key = snaps[kk]
+        if key in seen:
+            lib, ref, raised = seen[key]
+        else:
+            lib, ref, raised = seen[key] = fresh_read(case, snaps[kk])
+            if raised:
+                ctx.label("reader-raised:" + raised)
+        for who, x, was in (("library-reader", lib, held[0]),
+                            ("reference-reader", ref, held[1])):
+            c = classify(x, was, m2)
+            if kk == n and st2 == "returned" and c != "new" and \
+                    not (m2 == b"" and c == "empty") and \
+                    not (was == m2 and c == "old"):
+                raise Violation("complete-write-not-new",
+                                "%s sees %s after all %d commands of the "
+                                "second write" % (who, c, n))
+            if c == "MIXTURE":
+                if b.kind in ("t1t", "t2t"):
+                    ctx.set_class(_lencls(
+                        b, L2, st2 == "returned" and _only_length_bytes(
+                            b, snaps[kk], snaps[n])))
+                raise Violation(
+                    "mixture", "%s after cut %d of %d of the second write "
+                    "(%s) sees %d bytes; the tag held %s before it, new "
+                    "message %d bytes, common prefix with new %d; first "
+                    "write: %d bytes over %d old, %s (persistent %s, %s "
+                    "lost, from exchange %d of %d): %r"
+                    % (who, kk, n, "same NDEF object" if reuse else
+                       "fresh activation", len(x),
+                       "nothing readable" if was is None else
+                       "%d bytes" % len(was), len(m2), _prefix(x, m2), len(m1),
+                       len(old), st1, fkind, phase, k, n1, desc))
+            ctx.label(c)
+    if st1 == "error" and plan and plan["hits"] and n >= 2 and L2 > 0 \
+            and held[0] != m2:
+        ctx.nontrivial()
+    ctx.note({"first": st1, "exchanges-first": n1, "fault-from": k,
+              "second": st2, "writes": n, "cuts": len(ks), "old": len(old),
+              "m1": L1, "m2": L2})
+
+
 def _prefix(a, b):
     i = 0
     for x, y in zip(a, b):
@@ -252,10 +461,56 @@ def _leg(name, desc, quick, thorough, lens=None):
                     % name)
 
 
+def after_failed_strategy(tier):
+    desc = st.sampled_from(["t2t"] * 4 + ["t1t"] * 3 + ["t3t", "t3e", "t4t"]
+                           ).flatmap({
+        "t2t": st.one_of(t2t_big(), t2t_desc()),
+        "t1t": st.one_of(t1t_big(), tc.t1t_desc()),
+        "t3t": tc.t3t_desc("t3t"), "t3e": tc.t3t_desc("t3e"),
+        "t4t": t4t_desc()}.get)
+    lens = st.one_of(c02_len(), c02_len(),
+                     st.tuples(st.just("mlc"), st.integers(-6, 2)))
+    pos = st.one_of(
+        st.tuples(st.sampled_from(["abs", "end"]), st.integers(0, 3)),
+        st.tuples(st.just("abs"), st.integers(0, 400)))
+    return st.fixed_dictionaries({
+        "tag": desc,
+        # a freshly formatted (empty) tag is the usual first state
+        "old": st.one_of(st.just(["abs", 0]), c02_len(), c02_len()),
+        "old_seed": st.integers(0, 255),
+        "m1": lens, "m1_seed": st.integers(0, 255),
+        "m2": lens, "m2_seed": st.integers(0, 255),
+        "fault": st.tuples(pos, st.sampled_from(tc.HIST_KINDS),
+                           st.sampled_from(["cmd", "rsp"])).map(
+            lambda t: [t[0][0], t[0][1], t[1], t[2]]),
+        "reuse": st.sampled_from([True, True, True, False]),
+        "cuts": st.just("all" if tier == "thorough" else "edges")})
+
+
 LEGS = [
     _leg("t2t", st.one_of(t2t_big(), t2t_big(), t2t_desc()), 400, 4000),
     _leg("t1t", st.one_of(t1t_big(), t1t_big(), tc.t1t_desc()), 300, 4000),
     _leg("t3t", tc.t3t_desc("t3t"), 300, 4000),
     _leg("t3e", tc.t3t_desc("t3e"), 200, 3000),
     _leg("t4t", t4t_desc(), 300, 4000, t4_len()),
+    Leg("after-failed", run=run_after_failed, gen=after_failed_strategy,
+        quick=1600, thorough=16000, shards_quick=8, shards_thorough=16,
+        nt_floor=0.15,
+        rule="(layout of any tag type the module covers, old message - empty "
+             "in a third of the cases -, M1, M2, fault) : `ndef.octets = M1` "
+             "with a persistent fault (timeout / transmission / protocol; "
+             "command lost or response lost) from its k-th exchange on (k "
+             "from both ends of the fault-free exchange sequence or anywhere "
+             "in it) until the assignment has raised; then `ndef.octets = "
+             "M2` on the SAME NDEF object (3 of 4; Type 4 always and 1 of 4 "
+             "otherwise: after a fresh activation) with every cut point "
+             "k=0..n read by a fresh reader and the reference reader (quick "
+             "tier: all k when n<=40, else first/last 14 + 12 in between).  "
+             "Oracle: the state the failed write left is old / M1 / empty / "
+             "unreadable; after every cut of the second write a reader sees "
+             "what it saw before the second write, M2, empty or nothing "
+             "readable - never a mixture; k=n reads M2 when the assignment "
+             "returned.  non-trivial = the first assignment raised because "
+             "of the injected fault, the second write has n>=2, M2 "
+             "non-empty and different from what the tag held."),
 ]
